@@ -16,6 +16,20 @@ fn arcv(a: &Arc2, fs: &[f64]) -> Value {
 
 pub fn run(k: &str, c: &Value) -> Value {
     match k {
+        "c11.boxes" => {
+            // the cached box of a circle however it was made: every constructor, the least-squares fit and RANSAC included
+            let pts = p2s(&c["pts"]);
+            let g = circ(&c["guess"]);
+            let mut out: Vec<Value> = vec![];
+            let mut put = |how: &str, ci: &Circle2| out.push(json!({"how": how, "c": [hx(ci.x()), hx(ci.y()), hx(ci.r())], "aabb": bb(ci.aabb()), "arc": bb(ci.to_arc().aabb())}));
+            put("new", &Circle2::new(g.x(), g.y(), g.r()));
+            put("from_point", &Circle2::from_point(g.center, g.r()));
+            if let Ok(ci) = Circle2::from_3_points(pts[0], pts[pts.len() / 2], pts[pts.len() - 1]) { put("from_3_points", &ci); }
+            if let Ok(ci) = Circle2::fitting_circle(&pts, &g, engeom::common::BestFit::All) { put("fitting_circle", &ci); }
+            if let Ok(ci) = Circle2::fitting_circle(&pts, &g, engeom::common::BestFit::Gaussian(3.0)) { put("fitting_circle_gaussian", &ci); }
+            if let Ok(ci) = Circle2::ransac(&pts, 0.01, Some(50), None, None) { put("ransac", &ci); }
+            json!({"out": out})
+        }
         "c11.cc" => {
             let (c0, c1) = (circ(&c["c0"]), circ(&c["c1"]));
             let i01: Vec<Value> = c0.intersections_with(&c1).iter().map(hp2).collect();
